@@ -73,7 +73,15 @@ func (j *cacheJanitor[MetadataT]) start(ctx context.Context) {
 			case <-j.intervalChanged:
 				// Notifications of quick successive changes can arrive in either order: use the
 				// interval that is configured now, not the one this notification carries.
-				j.interval = j.cfg.Cache.CleanupInterval.Read().Cast()
+				interval := j.cfg.Cache.CleanupInterval.Read().Cast()
+				if interval <= 0 {
+					// A value that is about to be refused: an update is visible between its commit
+					// and its rollback, and this may be the (late) notification of an earlier one.
+					// Ticker.Reset panics on it. The rollback is announced as well: wait for that.
+					slog.Info("Ignoring a non-positive cleanup interval", "interval", interval)
+					continue
+				}
+				j.interval = interval
 				ticker.Reset(j.interval)
 				slog.Info("Cache cleanup ticker reset", "new_interval", j.interval)
 			case <-j.stopChan:
